@@ -134,7 +134,7 @@ fn c01_key_roundtrip_uuid() {
 // succeeds (String: UTF-8 aside), consumes exactly what deserialize_key consumes, and writes exactly what
 // serialize_key writes for the decoded key (i.e. the canonical encoding).
 macro_rules! key_convert {
-    ($name:ident, $tag:ty, $cap:expr) => {
+    ($name:ident, $tag:ty, $cap:expr, $mincover:expr) => {
         #[kani::proof]
         #[kani::stub(bytes::BytesMut::reserve_inner, no_reserve_inner)]
         #[kani::unwind(20)]
@@ -164,27 +164,27 @@ macro_rules! key_convert {
                     i += 1;
                 }
             }
-            kani::cover!(r2.is_ok() && len - s2.len() > 1);
+            kani::cover!(r2.is_ok() && len - s2.len() >= $mincover);
             kani::cover!(r2.is_err());
         }
     };
 }
 
 // obligation: C13.key_convert_u8 | harness: c13_key_convert_u8 | kind: complete | bound: none (reads at most 1 byte; lengths 0..=3) | tier: quick
-key_convert!(c13_key_convert_u8, U8, 3);
+key_convert!(c13_key_convert_u8, U8, 3, 1);
 // obligation: C13.key_convert_i8 | harness: c13_key_convert_i8 | kind: complete | bound: none (reads at most 1 byte; lengths 0..=3) | tier: quick
-key_convert!(c13_key_convert_i8, I8, 3);
+key_convert!(c13_key_convert_i8, I8, 3, 1);
 // obligation: C13.key_convert_u16 | harness: c13_key_convert_u16 | kind: complete | bound: none (reads at most 3 bytes; lengths 0..=4) | tier: quick
-key_convert!(c13_key_convert_u16, U16, 4);
+key_convert!(c13_key_convert_u16, U16, 4, 2);
 // obligation: C13.key_convert_i16 | harness: c13_key_convert_i16 | kind: complete | bound: none (reads at most 3 bytes; lengths 0..=4) | tier: quick
-key_convert!(c13_key_convert_i16, I16, 4);
+key_convert!(c13_key_convert_i16, I16, 4, 2);
 // obligation: C13.key_convert_u32 | harness: c13_key_convert_u32 | kind: complete | bound: none (reads at most 5 bytes; lengths 0..=6) | tier: quick
-key_convert!(c13_key_convert_u32, U32, 6);
+key_convert!(c13_key_convert_u32, U32, 6, 2);
 // obligation: C13.key_convert_i32 | harness: c13_key_convert_i32 | kind: complete | bound: none (reads at most 5 bytes; lengths 0..=6) | tier: quick
-key_convert!(c13_key_convert_i32, I32, 6);
+key_convert!(c13_key_convert_i32, I32, 6, 2);
 // obligation: C13.key_convert_u64 | harness: c13_key_convert_u64 | kind: complete | bound: none (reads at most 9 bytes; lengths 0..=10) | tier: quick
-key_convert!(c13_key_convert_u64, U64, 10);
+key_convert!(c13_key_convert_u64, U64, 10, 2);
 // obligation: C13.key_convert_i64 | harness: c13_key_convert_i64 | kind: complete | bound: none (reads at most 9 bytes; lengths 0..=10) | tier: quick
-key_convert!(c13_key_convert_i64, I64, 10);
+key_convert!(c13_key_convert_i64, I64, 10, 2);
 // obligation: C13.key_convert_uuid | harness: c13_key_convert_uuid | kind: complete | bound: none (reads exactly 16 bytes; lengths 0..=17) | tier: quick
-key_convert!(c13_key_convert_uuid, TUuid, 17);
+key_convert!(c13_key_convert_uuid, TUuid, 17, 16);
